@@ -52,6 +52,11 @@ func genC12() {
 						sites = append(sites, fd.Name.Name+": "+c12Render(fset, x))
 					}
 				}
+			case *ast.ReturnStmt:
+				// what the entry points hand to the parsers (MustDecodeOpt returns d.offset itself)
+				if fd.Name.Name == "MustDecodeOpt" || fd.Name.Name == "NewDecoder" {
+					sites = append(sites, fd.Name.Name+": "+c12Render(fset, x))
+				}
 			case *ast.CallExpr:
 				// d.r.<Method>(…) and io.ReadFull(d.r, …)
 				if s, ok := x.Fun.(*ast.SelectorExpr); ok {
@@ -99,7 +104,14 @@ func genC12() {
 				as, ok := n.(*ast.AssignStmt)
 				if ok && len(as.Rhs) == 1 {
 					if c, ok := as.Rhs[0].(*ast.CallExpr); ok {
-						if s, ok := c.Fun.(*ast.SelectorExpr); ok && s.Sel.Name == "MustDecodeOpt" && len(as.Lhs) == 3 {
+						isMDO := false
+						switch fn := c.Fun.(type) {
+						case *ast.SelectorExpr:
+							isMDO = fn.Sel.Name == "MustDecodeOpt"
+						case *ast.Ident:
+							isMDO = fn.Name == "MustDecodeOpt"
+						}
+						if isMDO && len(as.Lhs) == 3 {
 							if id, ok := as.Lhs[1].(*ast.Ident); ok {
 								offVar = id.Name
 							}
@@ -107,13 +119,18 @@ func genC12() {
 					}
 				}
 				if c, ok := n.(*ast.CallExpr); ok {
-					if s, ok := c.Fun.(*ast.SelectorExpr); ok {
-						switch s.Sel.Name {
-						case "NewDecoder", "MustDecodeOpt":
-							if id, ok := s.X.(*ast.Ident); ok && id.Name == "client" {
-								users = append(users, fmt.Sprintf("%s:%s:%s", rel, fd.Name.Name, s.Sel.Name))
-							}
+					name := ""
+					switch fn := c.Fun.(type) {
+					case *ast.SelectorExpr: // any package identifier / alias
+						name = fn.Sel.Name
+					case *ast.Ident: // in-package callers (pkg/redis/client)
+						if strings.HasPrefix(rel, "pkg/redis/client/") {
+							name = fn.Name
 						}
+					}
+					switch name {
+					case "NewDecoder", "MustDecodeOpt":
+						users = append(users, fmt.Sprintf("%s:%s:%s", rel, fd.Name.Name, name))
 					}
 				}
 				return true
@@ -172,6 +189,60 @@ func genC12() {
 		}
 		return nil
 	})
+	// ---- one hop further on the bidirectional path: how endOffset (=
+	// startOffset + incrOffset) flows into unit boundaries. Distinct statements only.
+	// (C13 checks the resulting unit offsets on the real parser; this is the textual tie.)
+	flow := map[string]bool{}
+	bfs, bf := parseFile("syncer/bisync.go")
+	for _, d := range bf.Decls {
+		fd, ok := d.(*ast.FuncDecl)
+		if !ok || fd.Body == nil || fd.Name.Name != "parseAofReplayUnits" {
+			continue
+		}
+		ast.Inspect(fd.Body, func(n ast.Node) bool {
+			switch x := n.(type) {
+			case *ast.AssignStmt:
+				for _, l := range x.Lhs {
+					if id, ok := l.(*ast.Ident); ok && (id.Name == "endOffset" || id.Name == "prevOffset" || id.Name == "txnStart") {
+						flow[c12Render(bfs, x)] = true
+					}
+				}
+			case *ast.ValueSpec:
+				for i, id := range x.Names {
+					if (id.Name == "prevOffset" || id.Name == "txnStart" || id.Name == "endOffset") && i < len(x.Values) {
+						flow[id.Name+" = "+c12Render(bfs, x.Values[i])] = true
+					}
+				}
+			case *ast.CallExpr:
+				if id, ok := x.Fun.(*ast.Ident); ok {
+					if id.Name == "buildBisyncReplayUnitWithMode" && len(x.Args) >= 3 {
+						flow[fmt.Sprintf("unit(%s, %s)", c12Render(bfs, x.Args[1]), c12Render(bfs, x.Args[2]))] = true
+					}
+					if id.Name == "makeCmd" && len(x.Args) >= 3 {
+						flow[fmt.Sprintf("makeCmd(.., %s)", c12Render(bfs, x.Args[2]))] = true
+					}
+				}
+			}
+			return true
+		})
+	}
+	var flowL []string
+	for k := range flow {
+		flowL = append(flowL, k)
+	}
+	sort.Strings(flowL)
+	facts["c12_bisync_offset_flow"] = flowL
+
+	// distinct forms only: how often a parser uses the sum is the sender properties' business
+	seenUse := map[string]bool{}
+	var du []string
+	for _, u := range uses {
+		if !seenUse[u] {
+			seenUse[u] = true
+			du = append(du, u)
+		}
+	}
+	uses = du
 	sort.Strings(users)
 	sort.Strings(uses)
 	sort.Strings(reassigned)
